@@ -14,12 +14,15 @@ CONSTANTS
  MaxClose = 1
  MaxInval = 0
  MaxCompact = 1
+ MaxBatch = 1
  FixRelease = TRUE
  DevReleaseRace = FALSE
  DevPutIfOwnerOther = FALSE
  DevReacqBlind = FALSE
  DevDropSameRev = FALSE
  DevNoReload = TRUE
+ DevLoadMerge = FALSE
+ DevPutsFirst = FALSE
  FixRev = TRUE
  KeepHist = TRUE
 INIT Init
